@@ -9,20 +9,25 @@ quantifies over **all** action lists.
 -/
 import TdModel.Lemmas.C24Frame
 import TdModel.Lemmas.C24ProvEnv
-import TdModel.Gen.C24
+import TdModel.Model.C24Cfg
 
 namespace TdModel.C24
 open TdModel.Rpc
 
-/-- The engine as it is in the source: whether the deferred handler guard of `Do` (repair of D13)
-and the re-check in the retry timer branch (repair of D14) are present is read from
-`rpc/engine.go` on every run; retry limit and interval are run-time options. -/
-def cfg (maxRetries interval : Nat) : Cfg :=
-  { guard := Facts.C24.guardPresent, recheck := Facts.C24.recheckPresent, maxRetries := maxRetries, interval := interval }
+/-! `C24.cfg maxRetries interval` (`Model/C24Cfg.lean`) is the engine as it is in the source: the raw
+facts regenerated from `rpc/engine.go` / `rpc/ack.go` on every run, interpreted by `Cfg.ofRaw`. -/
 
-/-- `Do` defers "claim the handler CAS, or wait for `done`" (if this is removed from the source the
-theorems below no longer compile). -/
-theorem guard_in_source : Facts.C24.guardPresent = true := by decide
+/-- Every regenerated fact is one the interpretation understands. -/
+theorem source_understood : raw.understood = true := by decide
+
+/-- **The source has the shape the theorems are about**: `Do` defers "claim the handler CAS, or wait
+for `done`" (and for nothing else); the final `select` has exactly the cases caller-context /
+close-context / `done`, its close branch detects a concurrent result by a try-receive on `done`;
+`Do` defers the removal of its handler; `NotifyAcks` skips unknown ids and unregisters acknowledged
+ones; ... (`Cfg.std`).  If the source changes shape the model follows it (the trace conformance stays
+meaningful) and this theorem — hence every theorem below — stops compiling. -/
+theorem source_shape (mr iv : Nat) : (cfg mr iv).std = true := by
+  rw [cfg, Cfg.ofRaw_std]; decide
 
 /-- the handler claims the same CAS before it touches `req.Output`. -/
 theorem handler_cas_in_source : Facts.C24.handlerCasBeforeDecode = true := by decide
@@ -32,10 +37,7 @@ theorem hook_sites_in_source : Facts.C24.hookSites =
     ["Do:handler.cas", "Do:do.guard", "Do:do.wait", "retryUntilAck:retry.wait",
      "NotifyResult:notify.invoke", "NotifyError:notify.invoke", "Close:close.wait"] := by decide
 
-/-- `Do` waits for exactly: the caller's context, the engine's close context, the handler's `done`. -/
-theorem do_select_in_source : Facts.C24.doSelect = ["<-ctx.Done()", "<-e.reqCtx.Done()", "<-done"] := by decide
-
-theorem cfg_guard (mr iv : Nat) : (cfg mr iv).guard = true := guard_in_source
+theorem cfg_guard (mr iv : Nat) : (cfg mr iv).std = true := source_shape mr iv
 
 /-- **Left alone after the return.**  Once `Do` has returned, no action of any thread — late or
 duplicate results, results or errors for this or any other message id, acknowledgements,
@@ -44,7 +46,7 @@ its counters.  In particular the output is never written after the return. -/
 theorem returned_left_alone (mr iv : Nat) {s s' : State} (hr : Reachable (cfg mr iv) s)
     {i : Nat} {c : Call} (hc : s.calls i = some c) (hret : c.ret ≠ none)
     {a : Action} (hs : step (cfg mr iv) s a = some s') : s'.calls i = some c :=
-  frozen_step (reachable_inv (cfg_guard mr iv) hr) hc hret hs
+  frozen_step (cfg_guard mr iv) (reachable_inv (cfg_guard mr iv) hr) hc hret hs
 
 /-- **Returns once.**  The value returned by `Do` never changes along any continuation. -/
 theorem returns_once (mr iv : Nat) {s s' : State} (hr : Reachable (cfg mr iv) s)
@@ -147,7 +149,7 @@ theorem foreign_ids_dont_touch (mr iv : Nat) {s s' : State} (hr : Reachable (cfg
 /-! ### The defect D13 (pinned tree): without the deferred guard the property is false -/
 
 /-- The engine before the repair. -/
-def cfgNoGuard : Cfg := { guard := false, recheck := false, maxRetries := 2, interval := 3 }
+def cfgNoGuard : Cfg := { Cfg.standard 2 3 with guard := false, recheckAck := false, recheckCtx := false }
 
 /-- register; result routed (lookup); cancel; `Do` returns `ctx.Err()` after the drop request;
 only then the fetched handler runs and decodes into the output. -/
